@@ -13,7 +13,7 @@ Warm(k) ==
     [] k = "vp9" -> <<255, 129, 35, 53, 3, 4, 56, 2, 128, 1, 224, 1, 64, 0, 240, 2, 52, 1, 88, 2, 3, 9, 9, 9>>
     [] k \in {"h265", "h265_donl", "h265_ap", "h265_ap_donl"} -> <<96, 1, 0, 7, 0, 3, 64, 1, 5, 0, 0, 3, 66, 1, 6>>   \* aggregation packet
     [] k \in {"h265_fu", "h265_fu_donl"} -> <<98, 1, 147, 0, 7, 1, 2, 3>>
-    [] k = "h265_paci" -> <<100, 1, 131, 56, 1, 2, 3, 38, 1, 9>>
+    [] k = "h265_paci" -> <<100, 1, 130, 56, 1, 2, 3, 38, 1, 9>>
     [] k \in {"h264", "h264_avc"} -> <<124, 133, 1, 2, 3>>                                   \* FU-A start
     [] k \in {"av1", "av1_legacy"} -> <<80, 2, 48, 1, 50, 2>>                                  \* Y=1: last element continues
     [] OTHER -> <<1, 2, 3>>
@@ -33,7 +33,7 @@ Forms(k) ==
   CASE k \in {"h265", "h265_donl"} -> << <<96, 1, 0, 7, 0, 3, 64, 1, 5, 0, 0, 3, 66, 1, 6>>,      \* aggregation packet
                                         <<98, 1, 147, 0, 7, 1, 2, 3>>,                              \* FU start
                                         <<98, 1, 19, 9, 8, 7>>,                                     \* FU middle
-                                        <<100, 1, 131, 56, 170, 187, 204, 38, 1, 9>>,               \* PACI with a 3-byte PHES (TSCI)
+                                        <<100, 1, 130, 56, 170, 187, 204, 38, 1, 9>>,               \* PACI with a 3-byte PHES (TSCI)
                                         <<100, 1, 2, 0, 38, 1, 9>>,                                 \* PACI without PHES
                                         <<100, 1, 3, 33, 1, 2, 38, 1, 9, 9>>,                       \* PACI with PHSsize 18? (short PHES) - may be refused
                                         <<38, 1, 0, 9, 4, 4, 4>> >>                                 \* single NAL unit
